@@ -9,7 +9,7 @@ A section that cannot be extracted is *downgraded*: the generated definition fal
 hand-written one in lean/Generated/Fallback.lean, the downgrade is recorded in the evidence, and the
 guard is then tied to the code by the correspondence check alone.
 """
-import ast, hashlib, importlib, inspect, json, os, sys, textwrap
+import ast, hashlib, importlib, inspect, json, os, re, sys, textwrap
 
 from . import common
 
@@ -523,6 +523,47 @@ def sec_safetynet_guards():
             f"def safetynetTimestampRequiresInt : Bool := {lbool(bool(type_guards))}\n")
 
 
+def sec_tpm_eku():
+    """which form the AIK certificate's extended-key-usage rule has: membership of tcg-kp-AIKCertificate among the
+    purposes ("MUST contain"), or a test of the first purpose only"""
+    tree = src_tree("webauthn/registration/formats/tpm.py")
+    fn = find_function(tree, "verify_tpm")
+    env = simple_assigns(fn)
+    OID = "2.23.133.8.3"
+    hits = [t for t, _ in raising_ifs(fn) if OID in ast.unparse(t)]
+    if len(hits) != 1:
+        raise Untranslatable(f"expected one guard naming {OID}, found {len(hits)}")
+    t = hits[0]
+    while isinstance(t, ast.BoolOp) and len(t.values) == 1:
+        t = t.values[0]
+    if not (isinstance(t, ast.Compare) and len(t.ops) == 1):
+        raise Untranslatable("EKU guard is not a single comparison: " + ast.unparse(t))
+    left, op, right = t.left, t.ops[0], t.comparators[0]
+
+    def resolve(n):
+        seen = 0
+        while isinstance(n, ast.Name) and n.id in env and seen < 5:
+            n, seen = env[n.id], seen + 1
+        return ast.unparse(n).replace(" ", "")
+    if isinstance(op, ast.NotIn) and isinstance(left, ast.Constant) and left.value == OID:
+        src = resolve(right)
+        if re.fullmatch(r"[\[\{(]?(\w+)\.dotted_stringfor\1inext_extended_key_usage[\]\})]?", src):
+            contains = True
+        else:
+            raise Untranslatable("EKU membership is over something else than the extension's purposes: " + src)
+    elif isinstance(op, ast.NotEq) and isinstance(right, ast.Constant) and right.value == OID:
+        src = resolve(left)
+        if src == "ext_extended_key_usage[0].dotted_string":
+            contains = False
+        else:
+            raise Untranslatable("EKU comparison is with something else than the first purpose: " + src)
+    else:
+        raise Untranslatable("EKU guard has an unknown form: " + ast.unparse(t))
+    return ("/-- the AIK certificate's EKU rule: true = tcg-kp-AIKCertificate must be among the purposes; false = only the first\n"
+            "purpose is read -/\n"
+            f"def tpmEkuRuleIsContains : Bool := {lbool(contains)}\n")
+
+
 def sec_defaults():
     import webauthn.registration.generate_registration_options as g
     import webauthn.registration.verify_registration_response as vr
@@ -656,6 +697,7 @@ def build_text():
     S.add("safetynet-guards", sec_safetynet_guards,
           "def safetynetTimestampRejects (timestamp_ms now_seconds : Int) : Bool := Fallback.safetynetTimestampRejects timestamp_ms now_seconds\n"
           "def safetynetTimestampRequiresInt : Bool := Fallback.safetynetTimestampRequiresInt\n")
+    S.add("tpm-eku", sec_tpm_eku, "def tpmEkuRuleIsContains : Bool := Fallback.tpmEkuRuleIsContains\n")
     S.add("defaults", sec_defaults,
           "def defaultSupportedPubKeyAlgs : List Int := Fallback.defaultSupportedPubKeyAlgs\n"
           "def defaultPubKeyCredParams : List (String × Int) := Fallback.defaultPubKeyCredParams\n"
